@@ -659,7 +659,7 @@ pub fn c22(ctx: &mut Ctx) {
 #[derive(Clone, Debug, Hash, Serialize, Deserialize)]
 pub struct CollisionCase {
     pub spec: u8,
-    /// bit0 code, bit1 nonce, bit2 storage
+    /// bit0 code, bit1 nonce, bit2 storage, bit3 zero balance (else 3 wei)
     pub target: u8,
     /// 0 create tx, 1 CREATE, 2 CREATE2
     pub kind: u8,
@@ -726,7 +726,8 @@ pub fn c21_case(c: &CollisionCase) -> CaseResult {
     let (has_code, has_nonce, has_storage) = (c.target & 1 != 0, c.target & 2 != 0, c.target & 4 != 0);
     if c.target != 0 {
         let acc = r::Account {
-            balance: r::U256::from(3u64),
+            // bit3: the target is unfunded (the collision rule must not depend on the balance)
+            balance: r::U256::from(if c.target & 8 != 0 && c.target != 8 { 0u64 } else { 3 }),
             nonce: if has_nonce { 1 } else { 0 },
             code: if has_code { vec![0x00] } else { vec![] },
             storage: if has_storage { [(r::U256::from(5u64), r::U256::from(6u64))].into_iter().collect() } else { Default::default() },
@@ -767,7 +768,8 @@ pub fn c21_case(c: &CollisionCase) -> CaseResult {
 pub fn c21(ctx: &mut Ctx) {
     let mut cases = vec![];
     for spec in [0u8, 5, 8, 11, 12, 16, 17, 18] {
-        for target in 0..8u8 {
+        for target in 0..16u8 {
+            // target 8 = an account that holds only a balance (a free address)
             for kind in 0..3u8 {
                 if kind == 2 && spec < 7 {
                     continue;
@@ -787,12 +789,12 @@ pub fn c21(ctx: &mut Ctx) {
     }
     ctx.run_exhaustive(
         "collision-grid",
-        "exhaustive product: target pre-state {code?, nonce?, storage?}^3 x {create tx, CREATE, CREATE2} x database layer {ModelDB, State, State+bundle, CacheDB, CacheDB with the storage inserted into the cache, WrapDatabaseRef} x endowment {0,1} x specs {FRONTIER, SPURIOUS_DRAGON, PETERSBURG, BERLIN, LONDON, SHANGHAI, CANCUN, PRAGUE}; target addresses predicted by own RLP/keccak; oracle: collision <=> code or nonce or storage; on collision the target is untouched, CREATE* pushes 0 / the create tx halts with all gas, creator nonce bumped; non-trivial = storage-only collision",
+        "exhaustive product: target pre-state {code?, nonce?, storage?, funded?} x {create tx, CREATE, CREATE2} x database layer {ModelDB, State, State+bundle, CacheDB, CacheDB with the storage inserted into the cache, WrapDatabaseRef} x endowment {0,1} x specs {FRONTIER, SPURIOUS_DRAGON, PETERSBURG, BERLIN, LONDON, SHANGHAI, CANCUN, PRAGUE}; target addresses predicted by own RLP/keccak; oracle: collision <=> code or nonce or storage; on collision the target is untouched, CREATE* pushes 0 / the create tx halts with all gas, creator nonce bumped; non-trivial = storage-only collision",
         cases,
         c21_case,
     );
     let mut eof_cases = vec![];
-    for target in 0..8u8 {
+    for target in 0..16u8 {
         for kind in 0..2u8 {
             for layer in 0..6u8 {
                 for value in [0u8, 1] {
